@@ -192,6 +192,21 @@ def check_graddrop(ctx: Ctx, J, dtype):
         ctx.count("graddrop_draws")
 
 
+def check_graddrop_empty(ctx: Ctx, dtype):
+    """no objective, or no parameter: the signs of an empty column sum to nothing, the result is the zero vector of
+    the right length (the model's `graddrop` on the same empty matrix)"""
+    rng = ctx.rng
+    m, n = rng.choice([(0, 3), (0, 1), (2, 0), (0, 0)])
+    Jt = torch.zeros(m, n, dtype=dtype)
+    torch.manual_seed(ctx.seed)
+    st, x = run_agg(GradDrop(), Jt)
+    ctx.case(("graddrop-empty", m, n, str(dtype)), nontrivial=True)
+    ctx.count("graddrop_empty", f"{m}x{n}")
+    if st != "ok" or tuple(x.shape) != (n,) or x.dtype != dtype or bool((x != 0).any()):
+        ctx.violation(f"GradDrop on a {m}x{n} matrix returns {x.tolist() if st == 'ok' else x} instead of the zero vector with {n} entries",
+                      {"aggregator": "GradDrop", "shape": [m, n], "dtype": str(dtype)})
+
+
 # ------------------------------------------------------------------------------------------ CAGrad / Random
 def check_cagrad(ctx: Ctx, J, dtype):
     rng = ctx.rng
@@ -270,6 +285,8 @@ def main(ctx: Ctx):
         if i % 2 == 0 or m <= 3:
             check_pcgrad(ctx, J, torch.float64)
         check_graddrop(ctx, J, dtype)
+        if i % 10 == 0:
+            check_graddrop_empty(ctx, dtype)
         check_random(ctx, J, dtype)
         if i % 3 == 0:
             Js, _, _, _ = m_svd(rng, m, max(ncol, 2))
